@@ -63,6 +63,7 @@ type Case struct {
 	PolygonRel          bool   // relation parents are type=multipolygon (orientation code path) instead of route
 	LateBase            bool   // Pre regime only: timestamps in 2015 (no commit info although after CommitInfoStart)
 	Reject              []bool // per child: ChildFilter returns false (nil = no filter)
+	StaleUpdates        bool   // the parents already carry update lists before the call (re-annotation): all versions share one list of three bogus updates, backing array included
 	SharedIDs           bool   // relation parents: child ids are unique per kind only (node/1 and way/1 both occur)
 	FailChild           int    // k > 0: the data source fails with ErrBackend (not a not-found error) when the history of child k-1 is requested
 	TickMS              int    // Commit regime: length of one time unit in milliseconds (0 = 1000); sub-second units give commit instants that differ within one wall-clock second
@@ -297,7 +298,23 @@ func (c *Case) BuildWays() osm.Ways {
 		}
 		out = append(out, w)
 	}
+	if c.StaleUpdates {
+		stale := staleUpdates()
+		for _, w := range out {
+			w.Updates = stale
+		}
+	}
 	return out
+}
+
+// staleUpdates is what an earlier annotation pass might have left behind.
+func staleUpdates() osm.Updates {
+	old := time.Date(2001, 2, 3, 4, 5, 6, 0, time.UTC)
+	u := make(osm.Updates, 3, 64)
+	for i := range u {
+		u[i] = osm.Update{Index: 0, Version: 9000 + i, Timestamp: old.Add(time.Duration(i) * time.Hour), ChangesetID: 77}
+	}
+	return u
 }
 
 // BuildRelations builds the parent versions as (non-polygon) relations.
@@ -321,6 +338,12 @@ func (c *Case) BuildRelations() osm.Relations {
 			r.Members = append(r.Members, m)
 		}
 		out = append(out, r)
+	}
+	if c.StaleUpdates {
+		stale := staleUpdates()
+		for _, r := range out {
+			r.Updates = stale
+		}
 	}
 	return out
 }
@@ -367,6 +390,7 @@ func Gen(t *rapid.T, o Opts) Case {
 		}
 		c.SharedIDs = true
 	}
+	c.StaleUpdates = rapid.IntRange(0, 3).Draw(t, "staleUpdates") == 0
 	if o.Faults && len(c.Children) > 0 && rapid.IntRange(0, 7).Draw(t, "fault") == 0 {
 		c.FailChild = rapid.IntRange(1, len(c.Children)).Draw(t, "failChild")
 	}
